@@ -560,13 +560,47 @@ class Builder:
             def del_child():
                 cname = rng.choice(["data_arrays", "data_frames", "tags", "multi_tags", "groups"])
                 x = self.pick(getattr(b, cname))
+                if cname == "data_arrays" and rng.random() < 0.6:
+                    # prefer an array that something points at through a role link (positions / extents - possibly of a multi-tag in
+                    # ANOTHER block): deleting it must take those links with it, wherever they are
+                    pointed = {v[1].split(":", 1)[1] for (i, a), v in self.sh.attrs.items()
+                               if a in ("positions", "extents") and isinstance(v, list) and len(v) == 2 and v[0] == "ref"}
+                    hot = [d for d in b.data_arrays if d.id in pointed]
+                    mine = set(self.sh.order.get((b.id, "multi_tags"), []))
+                    far = {v[1].split(":", 1)[1] for (i, a), v in self.sh.attrs.items()
+                           if a in ("positions", "extents") and isinstance(v, list) and len(v) == 2 and v[0] == "ref" and i not in mine}
+                    hot_far = [d for d in hot if d.id in far]
+                    if hot_far or hot:
+                        x = rng.choice(hot_far or hot)
+                        self.paths_used["delete_role_link_target"] = self.paths_used.get("delete_role_link_target", 0) + 1
                 if x is None:
                     return "skip"
                 ids = self.closure(x)
                 cont = getattr(b, cname)
                 del cont[rng.choice([x.name, x.id, x, list(cont).index(x)])]
                 self.sh.kill(ids)
-            add(("delete_block_child", 0.5, del_child))
+            add(("delete_block_child", 0.7, del_child))
+
+            def far_link_then_delete():
+                """An array of this block is made the extents (or positions) of a multi-tag of ANOTHER block and linked by a dimension
+                of an array there; then it is deleted from its own block: every one of those far links must be gone with it."""
+                others = [ob for ob in self.f.blocks if ob.id != b.id and len(ob.multi_tags)]
+                if not others:
+                    return "skip"
+                ob = rng.choice(others)
+                name = self.uniq(b.data_arrays, "far")
+                vals = np.arange(4.0)
+                da = b.create_data_array(name, "arr", data=vals)
+                self.born(da, b.id, "data_arrays")
+                self.expect(da, "type", "arr")
+                mt = self.hop(ob.multi_tags, self.pick(ob.multi_tags))
+                role = rng.choice(["extents", "positions"])
+                setattr(mt, role, da)
+                self.expect(mt, role, self.ref(da))
+                cont = self.hop(self.f.blocks, b).data_arrays
+                del cont[rng.choice([da.name, da.id, list(cont).index(da)])]
+                self.sh.kill({da.id})
+            add(("far_role_link_then_delete", 0.25, far_link_then_delete))
 
     def _array_ops(self, b, da, add):
         nix, rng = self.nix, self.rng
@@ -769,7 +803,7 @@ class Builder:
         else:
             def mt_pos():
                 das = [d for d in b.data_arrays if d.dtype.kind in "fiu"]
-                if rng.random() < 0.25:
+                if rng.random() < 0.4:
                     # positions / extents are not confined to the multi-tag's block: sometimes an array of another block
                     das = [d for ob in self.f.blocks if ob.id != b.id for d in ob.data_arrays if d.dtype.kind in "fiu"] or das
                 x = self.pick(das)
